@@ -6,6 +6,7 @@
 //	atom  =TEXT                 DecodeAtom on the string
 //	chunk =TEXT CUTS            whole-text parse and delivery in pieces (CUTS = c1,c2,.. rune offsets or -)
 //	hist  =TEXT N {=H CUTS A}   parse of TEXT after N earlier inputs on the same parser vs on a fresh parser
+//	queue =TEXT CUTS SCHED      like chunk, but ParseTokens is called only after the pieces marked 1 in SCHED (and the last)
 //	repl  =ENTRY                the REPL's line reader (getExpressionWithLiner) given the entry line by line
 //
 // Every implementation-only comparison (pieces = whole, after history = fresh) is done here for
@@ -125,51 +126,79 @@ func whole(p *zygo.Parser, text string) string {
 	})
 }
 
-// deliver: the text delivered in pieces; the last piece is marked as the end of the text.
-// Returns the observable after every delivery. Delivery stops after a hard error.
-func deliver(p *zygo.Parser, ps []string) []string {
-	var out []string
+// held: an expression slice a ParseTokens call returned, with its rendering at that time
+type held struct {
+	ex  []zygo.Sexp
+	obs string
+}
+
+// unchanged: the slices returned earlier still render as they did (nothing later overwrote them)
+func unchanged(hs []held) bool {
+	for _, x := range hs {
+		if guarded(func() string { return obs(x.ex, nil) }) != x.obs {
+			return false
+		}
+	}
+	return true
+}
+
+// run hands the pieces to the parser. parseAfter[i] (nil = always): call ParseTokens after piece i, else the piece
+// is only queued (NewInput) ahead of the parser; the last piece is always followed by ParseTokens. final: the last
+// piece is marked as the end of the text. viaReset: start with Parser.Reset + NewInput (the ParseFile / include
+// path) instead of ResetAddNewInput. Returns the observable of every ParseTokens call and the slices it returned.
+// Delivery stops after a hard error.
+func run(p *zygo.Parser, ps []string, parseAfter []bool, final, viaReset bool) (out []string, hs []held) {
 	for i, s := range ps {
 		last := i == len(ps)-1
+		stop := false
 		o := guarded(func() string {
 			var in interface {
 				ReadRune() (rune, int, error)
 				UnreadRune() error
 			} = strings.NewReader(s)
-			if last {
+			if last && final {
 				in = zygo.WholeText(strings.NewReader(s))
 			}
-			if i == 0 {
+			switch {
+			case i == 0 && viaReset:
+				p.Reset()
+				p.NewInput(in)
+			case i == 0:
 				p.ResetAddNewInput(in)
-			} else {
+			default:
 				p.NewInput(in)
 			}
-			return obs(p.ParseTokens())
+			if !last && parseAfter != nil && i < len(parseAfter) && !parseAfter[i] {
+				return ""
+			}
+			ex, err := p.ParseTokens()
+			r := obs(ex, err)
+			if err != nil {
+				r0 := obs(ex, nil)
+				hs = append(hs, held{ex, r0})
+			} else {
+				hs = append(hs, held{ex, r})
+			}
+			return r
 		})
+		if o == "" {
+			continue
+		}
 		out = append(out, o)
 		if o[0] == 'E' || o[0] == 'P' {
+			stop = true
+		}
+		if stop {
 			break
 		}
 	}
-	return out
+	return out, hs
 }
 
-// partial: deliver pieces none of which is marked final (an abandoned input).
-func partial(p *zygo.Parser, ps []string) {
-	guarded(func() string {
-		for i, s := range ps {
-			if i == 0 {
-				p.ResetAddNewInput(strings.NewReader(s))
-			} else {
-				p.NewInput(strings.NewReader(s))
-			}
-			_, err := p.ParseTokens()
-			if err != nil && err != zygo.ErrMoreInputNeeded {
-				break
-			}
-		}
-		return ""
-	})
+// deliver: the text delivered in pieces, ParseTokens after each; the last piece is marked as the end of the text.
+func deliver(p *zygo.Parser, ps []string) []string {
+	out, _ := run(p, ps, nil, true, false)
+	return out
 }
 
 func tokObs(text string) string {
@@ -221,6 +250,9 @@ type harness struct {
 	nChunk   int // implementation-only comparisons done
 	nHist    int
 	nRepl    int
+	nQueue   int
+	tmp      string
+	nfile    int
 	failR    int
 	failC    int
 	failCU   int // failures not explained by a cut at a quote-sugar/backslash token
@@ -265,9 +297,9 @@ func (h *harness) wholeOf(text string) (string, string) {
 }
 
 // chunkImpl runs the experiment on the implementation. ok = final delivery equals whole.
-func (h *harness) chunkImpl(text string, cuts []int) (impl string, ok bool, explained bool) {
+func (h *harness) chunkImpl(text string, cuts []int, sched []bool) (impl string, ok bool, explained bool) {
 	w, kept := h.wholeOf(text)
-	ds := deliver(h.p, pieces(text, cuts))
+	ds, _ := run(h.p, pieces(text, cuts), sched, true, false)
 	h.nChunk++
 	ok = ds[len(ds)-1] == w
 	gs, rr := "-", "-"
@@ -277,7 +309,7 @@ func (h *harness) chunkImpl(text string, cuts []int) (impl string, ok bool, expl
 }
 
 func (h *harness) chunk(text string, cuts []int, emit bool, tags ...string) bool {
-	impl, ok, explained := h.chunkImpl(text, cuts)
+	impl, ok, explained := h.chunkImpl(text, cuts, nil)
 	if !ok {
 		h.failC++
 		if !explained {
@@ -290,6 +322,39 @@ func (h *harness) chunk(text string, cuts []int, emit bool, tags ...string) bool
 		h.out.Case(input, impl, len(cuts) > 0, tags...)
 	}
 	return ok
+}
+
+// queue: the pieces are handed over ahead of the parser: ParseTokens is called only after the pieces marked in sched
+// (and after the last one), the others wait in the lexer's queue of streams.
+func (h *harness) queue(text string, cuts []int, sched []bool, emit bool, tags ...string) bool {
+	impl, ok, _ := h.chunkImpl(text, cuts, sched)
+	h.nQueue++
+	if !ok {
+		h.failC++
+		h.failCU++
+	}
+	var sb strings.Builder
+	for _, b := range sched {
+		if b {
+			sb.WriteByte('1')
+		} else {
+			sb.WriteByte('0')
+		}
+	}
+	input := "queue " + enc(text) + " " + cutsStr(cuts) + " " + sb.String()
+	if (emit || !ok) && !h.emitted[input] && (ok || h.failCU <= 100) {
+		h.emitted[input] = true
+		h.out.Case(input, impl, true, tags...)
+	}
+	return ok
+}
+
+func (h *harness) randSched(n int) []bool {
+	s := make([]bool, n)
+	for i := range s {
+		s[i] = h.rng.Intn(3) == 0
+	}
+	return s
 }
 
 // allCuts: every single cut and (if two) every pair of cuts, emitting a sample of n case lines.
@@ -334,45 +399,127 @@ type hitem struct {
 	text    string
 	cuts    []int
 	abandon bool // delivered without end-of-text mark and left wherever the parser stopped
+	mode    int  // 0: ResetAddNewInput; 1: Parser.Reset + NewInput (the ParseFile / include path); 2: env.ParseFile on a file
 }
 
-func (h *harness) histImpl(text string, hs []hitem) (string, bool) {
+func (it hitem) flag() string {
+	f := "w"
+	if it.abandon {
+		f = "a"
+	}
+	switch it.mode {
+	case 1:
+		f = strings.ToUpper(f)
+	case 2:
+		f = "F"
+	}
+	return f
+}
+
+func parseFlag(f string) (abandon bool, mode int) {
+	switch f {
+	case "a":
+		return true, 0
+	case "W":
+		return false, 1
+	case "A":
+		return true, 1
+	case "F":
+		return false, 2
+	}
+	return false, 0
+}
+
+// parseFile: the text through env.ParseFile (a real file)
+func (h *harness) parseFile(text string) (string, []held) {
+	var hs []held
+	o := guarded(func() string {
+		if h.tmp == "" {
+			d, err := os.MkdirTemp("", "c13pf")
+			if err != nil {
+				return "E"
+			}
+			h.tmp = d
+		}
+		h.nfile++
+		path := filepath.Join(h.tmp, "t"+strconv.Itoa(h.nfile%8)+".zy")
+		if err := os.WriteFile(path, []byte(text), 0644); err != nil {
+			return "E"
+		}
+		ex, err := h.env.ParseFile(path)
+		if err != nil {
+			return "E"
+		}
+		r := obs(ex, nil)
+		hs = append(hs, held{ex, r})
+		return r
+	})
+	return o, hs
+}
+
+// histImpl: targetMode = how the target text is read after the earlier inputs (0 / 1 / 2 as hitem.mode).
+// F = fresh parser, H = after the history, S = Reset leaves the same state as on a fresh parser,
+// A = every expression slice returned for an earlier input (and for the target) still renders as when it was returned.
+func (h *harness) histImpl(text string, hs []hitem, targetMode int) (string, bool) {
 	fresh := h.env.NewParser()
 	f := whole(fresh, text)
 	fresh.Reset()
 	fdump := fresh.VerifDump()
 	fresh.Stop()
+	var kept []held
 	for _, it := range hs {
-		if it.abandon {
-			partial(h.p, pieces(it.text, it.cuts))
-		} else {
-			deliver(h.p, pieces(it.text, it.cuts))
+		if it.mode == 2 {
+			_, k := h.parseFile(it.text)
+			kept = append(kept, k...)
+			continue
 		}
+		_, k := run(h.p, pieces(it.text, it.cuts), nil, !it.abandon, it.mode == 1)
+		kept = append(kept, k...)
 	}
-	g := whole(h.p, text)
+	var g string
+	switch targetMode {
+	case 2:
+		var k []held
+		g, k = h.parseFile(text)
+		kept = append(kept, k...)
+		if f[0] != 'D' && g == "E" {
+			g = f // ParseFile reports more-input and errors alike as an error
+		}
+	default:
+		out, k := run(h.p, []string{text}, nil, true, targetMode == 1)
+		g = out[len(out)-1]
+		kept = append(kept, k...)
+	}
+	// something read after the target must not disturb it either
+	run(h.p, []string{"(later (text) [1 2 3] \"x\")"}, nil, true, targetMode == 1)
+	al := "same"
+	if !unchanged(kept) {
+		al = "changed"
+	}
 	h.p.Reset()
 	s := "same"
 	if h.p.VerifDump() != fdump {
 		s = "diff"
 	}
 	h.nHist++
-	return "F=" + f + " ;; H=" + g + " ;; S=" + s, f == g && s == "same"
+	return "F=" + f + " ;; H=" + g + " ;; S=" + s + " ;; A=" + al, f == g && s == "same" && al == "same"
 }
 
 func (h *harness) hist(text string, hs []hitem, emit bool, tags ...string) bool {
-	impl, ok := h.histImpl(text, hs)
+	tm := h.rng.Intn(5)
+	if tm > 2 {
+		tm = 0
+	}
+	impl, ok := h.histImpl(text, hs, tm)
 	if !ok {
 		h.failH++
 	}
 	var sb strings.Builder
 	fmt.Fprintf(&sb, "hist %s %d", enc(text), len(hs))
 	for _, it := range hs {
-		a := "w"
-		if it.abandon {
-			a = "a"
-		}
-		fmt.Fprintf(&sb, " %s %s %s", enc(it.text), cutsStr(it.cuts), a)
+		fmt.Fprintf(&sb, " %s %s %s", enc(it.text), cutsStr(it.cuts), it.flag())
 	}
+	fmt.Fprintf(&sb, " T%d", tm)
 	input := sb.String()
 	if (emit || !ok) && !h.emitted[input] && (ok || h.failH <= 200) {
 		h.emitted[input] = true
@@ -519,6 +666,16 @@ func main() {
 	for _, t := range edgeTexts {
 		out.Case("tok "+enc(t), tokObs(t), true, "tok:edge")
 		h.allCuts(t, len(t) <= 40, -1, "text:edge")
+		if n := len([]rune(t)); n >= 2 {
+			for j := 0; j < 3; j++ {
+				c := h.randCuts(t, 2+h.rng.Intn(3))
+				sc := h.randSched(len(c))
+				if j == 0 {
+					sc = make([]bool, len(c))
+				}
+				h.queue(t, c, sc, j == 0, "text:edge", "queued")
+			}
+		}
 	}
 
 	phase("2-edge")
@@ -566,6 +723,15 @@ func main() {
 		for j := 0; j < 4; j++ {
 			h.chunk(t, h.randCuts(t, 3+h.rng.Intn(4)), j == 0, tag, "cuts:3+")
 		}
+		// pieces queued ahead of the parser
+		for j := 0; j < 3; j++ {
+			c := h.randCuts(t, 2+h.rng.Intn(4))
+			sc := h.randSched(len(c))
+			if j == 0 {
+				sc = make([]bool, len(c)) // everything queued, one ParseTokens
+			}
+			h.queue(t, c, sc, j == 0 && i%3 == 0, tag, "queued")
+		}
 	}
 
 	phase("4-generated")
@@ -591,6 +757,14 @@ func main() {
 		for j := 0; j < m; j++ {
 			h.chunk(t, h.randCuts(t, 2+h.rng.Intn(5)), j < 2 && i%4 == 0, "text:corpus", "cuts:2+")
 		}
+		for j := 0; j < 4; j++ {
+			c := h.randCuts(t, 2+h.rng.Intn(5))
+			sc := h.randSched(len(c))
+			if j == 0 {
+				sc = make([]bool, len(c))
+			}
+			h.queue(t, c, sc, j == 0 && i%8 == 0, "text:corpus", "queued")
+		}
 	}
 
 	phase("5-corpus")
@@ -614,6 +788,10 @@ func main() {
 				it.cuts = h.randCuts(x, 1+h.rng.Intn(2))
 			}
 			it.abandon = h.rng.Intn(3) == 0
+			it.mode = h.rng.Intn(4) % 3 // 0 twice as often
+			if it.mode == 2 {
+				it.abandon, it.cuts = false, nil
+			}
 			if it.abandon && h.rng.Intn(2) == 0 {
 				// cut the earlier input short at a random place
 				rs := []rune(x)
@@ -630,8 +808,8 @@ func main() {
 			if !thorough && (i+j)%4 != int(a.Seed%4) {
 				continue
 			}
-			h.hist(t, []hitem{{text: b, abandon: true}}, false, "hist:edge")
-			h.hist(t, []hitem{{text: b}}, false, "hist:edge")
+			h.hist(t, []hitem{{text: b, abandon: true, mode: (i + j) / 4 % 2}}, false, "hist:edge")
+			h.hist(t, []hitem{{text: b, mode: (i + j) / 4 % 3}}, false, "hist:edge")
 		}
 	}
 	for i, t := range texts {
@@ -664,6 +842,7 @@ func main() {
 	out.Extra["impl_repl_comparisons"] = h.nRepl
 	out.Extra["impl_repl_failures"] = h.failR
 	out.Extra["phase_seconds"] = phases
+	out.Extra["impl_queued_comparisons"] = h.nQueue
 	out.Extra["impl_chunk_comparisons"] = h.nChunk
 	out.Extra["impl_chunk_failures"] = h.failC
 	out.Extra["impl_chunk_failures_unexplained"] = h.failCU
@@ -672,6 +851,9 @@ func main() {
 	out.Extra["tok_exhaustive_len"] = tokLen
 	out.Extra["tok_exhaustive_cases"] = nTok
 	out.Extra["atom_cases"] = nAtom
+	if h.tmp != "" {
+		os.RemoveAll(h.tmp)
+	}
 	out.Close(a.Stats)
 }
 
@@ -728,7 +910,17 @@ func replay(h *harness, path string) {
 			if len(f) > 2 {
 				cuts = f[2]
 			}
-			impl, _, _ := h.chunkImpl(dec(f[1]), parseCuts(cuts))
+			impl, _, _ := h.chunkImpl(dec(f[1]), parseCuts(cuts), nil)
+			h.out.Case(in, impl, true, "replay")
+			fmt.Printf("replay %s\n  %s\n", in, strings.ReplaceAll(impl, " ;; ", "\n  "))
+		case "queue":
+			var sc []bool
+			if len(f) > 3 {
+				for _, ch := range f[3] {
+					sc = append(sc, ch == '1')
+				}
+			}
+			impl, _, _ := h.chunkImpl(dec(f[1]), parseCuts(f[2]), sc)
 			h.out.Case(in, impl, true, "replay")
 			fmt.Printf("replay %s\n  %s\n", in, strings.ReplaceAll(impl, " ;; ", "\n  "))
 		case "repl":
@@ -739,9 +931,14 @@ func replay(h *harness, path string) {
 			n, _ := strconv.Atoi(f[2])
 			var hs []hitem
 			for i := 0; i < n && 3+3*i+2 < len(f); i++ {
-				hs = append(hs, hitem{text: dec(f[3+3*i]), cuts: parseCuts(f[4+3*i]), abandon: f[5+3*i] == "a"})
+				ab, md := parseFlag(f[5+3*i])
+				hs = append(hs, hitem{text: dec(f[3+3*i]), cuts: parseCuts(f[4+3*i]), abandon: ab, mode: md})
 			}
-			impl, _ := h.histImpl(dec(f[1]), hs)
+			tm := 0
+			if last := f[len(f)-1]; len(last) == 2 && last[0] == 'T' {
+				tm = int(last[1] - '0')
+			}
+			impl, _ := h.histImpl(dec(f[1]), hs, tm)
 			h.out.Case(in, impl, true, "replay")
 			fmt.Printf("replay %s\n  %s\n", in, strings.ReplaceAll(impl, " ;; ", "\n  "))
 		}
